@@ -262,6 +262,7 @@ func init() {
 //     components is not recomputed here; they are counted and skipped.
 //   - CFF glyphs with integral coordinates: the segment list equals the command list
 //     (moveto/lineto/curveto; x/image closes open sub-paths with a lineto).
+//
 // It returns "ok:<simple>/<composite>/<cff>" or the first discrepancy.
 func fontfileOutlines(font *sfnt.Font, data []byte) string {
 	xf, err := ximg.Parse(data)
